@@ -205,6 +205,9 @@ pub fn run(ctx: &Ctx) -> i32 {
         let mut rng = Rng::new(ctx.seed, 0xC08 + shard as u64);
         // (a,b) every built FST verifies and carries the reference checksum
         gen::for_shard(&fams, shard, n, |case| {
+            if case.family == "huge-delta" {
+                return;
+            }
             let g = GEOMS[case.index % GEOMS.len()];
             for front in [Front::RawGeom(g.0, g.1), MAP_FRONTS[case.index % MAP_FRONTS.len()]].iter() {
                 if let Ok(Ok(bytes)) = guard(|| build::build(*front, &case.kv)) {
